@@ -328,6 +328,11 @@ def thrift_sem():
         ("cchain", b("i32"), "C_INT2", vI("I32", 42)), ("cdbl", b("double"), "C_DBL", vDouble(5)), ("cneg", b("i64"), "C_NEG", vI("I64", -77)),
         ("tden", ref("TdColor"), "Color.Blue", vI("I32", 7)),
         ("ssq", b("string"), "'single'", vBin("single")),
+        # doubles in ordered-float positions (set element, map key) with full f64 precision
+        ("sdbl", st(b("double")), "[0.5, 3.141592653589793]", vSet("Double", [vDouble(0.5), vDouble(3.141592653589793)])),
+        ("mdk", mp(b("double"), b("string")), '{2.718281828459045: "e", 1e300: "big"}', vMap("Double", "Bin", [(vDouble(2.718281828459045), vBin("e")), (vDouble(1e300), vBin("big"))])),
+        ("dprec", b("double"), "0.30000000000000004", vDouble(0.30000000000000004)),
+        ("ldprec", lst(b("double")), "[1.0000000000000002, 123456789.12345679]", vList("Double", [vDouble(1.0000000000000002), vDouble(123456789.12345679)])),
         # escape sequences in string / binary literals (kept as written by the parser, interpreted by rustc)
         ("sesc_n", b("string"), '"line1\\nline2"', vBin("line1\nline2")), ("sesc_t", b("string"), '"two\\n\\nlines\\n"', vBin("two\n\nlines\n")),
         ("sesc_q", b("string"), '"q\\"uote"', vBin('q"uote')), ("sesc_bs", b("string"), '"back\\\\slash"', vBin("back\\slash")),
@@ -485,6 +490,12 @@ def thrift_stress():
         body += "struct UsesEnum {\n    1: KwVariants v = KwVariants.%s,\n    2: optional %s t,\n}\n" % (ch[0], "T_" + ch[1 % len(ch)])
         body += "service S { UsesEnum get(1: KwVariants v) }\n"
         docs.append(RawDoc("kw_enum_%d" % ci, {"kw_enum_%d.thrift" % ci: body}, label="keyword-as-enum/variant/typedef/const-name"))
+    # `Self` / `self` in type-level positions (path keywords cannot be raw identifiers)
+    body = ("struct self { 1: optional string v }\nstruct Holder { 1: optional self s, 2: list<self> l }\n"
+            "union SelfU { 1: i32 Self, 2: string self_ }\nexception SelfEx { 1: string Self }\n"
+            "typedef i32 Self\nstruct UsesSelf { 1: optional Self t, 2: optional SelfU u }\n"
+            "enum SelfE { Self = 1, self_v = 2 }\nservice SelfSvc { self get(1: Self a, 2: SelfU u) throws (1: SelfEx e) }\n")
+    docs.append(RawDoc("self_names", {"self_names.thrift": body}, label="self-as-type-and-variant-name"))
     for ci, ch in enumerate(chunks(STD_NAMES, 9)):
         body = "\n".join("struct %s {\n    1: optional string v,\n}" % k for k in ch)
         body += "\nstruct UsesStd {\n" + "\n".join("    %d: optional %s f%d,\n    %d: list<%s> l%d," % (2 * i + 1, k, i, 2 * i + 2, k, i) for i, k in enumerate(ch)) + "\n}\n"
